@@ -47,6 +47,7 @@ var c07Behaviours = []string{
 	"referral-up",       // referral for the common parent
 	"referral-self",     // non-progressing referral for Z itself with new servers
 	"referral-mixed",    // one authority section with NS sets of two owners
+	"referral-class",    // a referral for a child of Z, coherent and on the path, whose NS set is in class CH (the question is class IN)
 	"glue-local-interface", // in-zone glue that is an address of one of this host's own network interfaces
 	"glue-loopback",     // a child delegation whose glue points at loopback / this host
 	"glue-out-of-zone",  // a child delegation served by a victim-zone host name with forged glue
@@ -60,8 +61,8 @@ func init() {
 	kit.Register(&kit.Prop{
 		ID:    "C07",
 		Level: "exploration",
-		Rule: "Scenario = unsigned zone hierarchy + one zone Z whose authoritative servers apply a subset of 11 adversarial behaviours (records for names " +
-			"outside Z in any section, CNAME continued out of zone in one message, sideways/upward/self/mixed-owner referrals, glue for out-of-zone or " +
+		Rule: "Scenario = unsigned zone hierarchy + one zone Z whose authoritative servers apply a subset of 14 adversarial behaviours (records for names " +
+			"outside Z in any section, CNAME continued out of zone in one message, sideways/upward/self/mixed-owner/other-class referrals, glue for out-of-zone or " +
 			"loopback/local hosts) + spoofed datagrams (wrong ID, wrong question) ahead of genuine replies + a history of trigger questions under Z " +
 			"followed by questions for victim names and their name servers, repeated after caches fill. Oracle = ground truth for every name outside Z, " +
 			"attacker-marked rdata never attached to a name outside Z, no dial to loopback/local addresses, no non-Z question sent to the attacker's " +
@@ -124,7 +125,7 @@ func genC07(r *kit.RNG) *C07Scenario {
 			sc.Spoof = append(sc.Spoof, s)
 		}
 	}
-	trig := []string{"www." + sc.Adversary, sc.Adversary, "x." + sc.Adversary, "cn." + sc.Adversary, "child." + sc.Adversary, "www.child." + sc.Adversary, "nx." + sc.Adversary}
+	trig := []string{"www." + sc.Adversary, sc.Adversary, "x." + sc.Adversary, "cn." + sc.Adversary, "child." + sc.Adversary, "www.child." + sc.Adversary, "nx." + sc.Adversary, "k.child." + sc.Adversary}
 	vict := []string{"www." + sc.Victim, sc.Victim, "ns1." + sc.Victim, "nx." + sc.Victim, "mail." + sc.Victim, parentOf(sc.Victim)}
 	n := r.Range(5, 18)
 	for i := 0; i < n; i++ {
@@ -278,6 +279,19 @@ func execC07(sc *C07Scenario, tr *kit.Trace, res *kit.Result) {
 			m.Authoritative = false
 			m.Rcode = dns.RcodeSuccess
 			fired("referral-mixed")
+		case has("referral-class") && strings.HasPrefix(qn, "k.child."):
+			// Only this referral names the attacker's server, and it is not of the question's
+			// class: it must be refused like the sideways and upward ones.
+			ns := nsRR("child."+Z, evilHost)
+			ns.Header().Class = dns.ClassCHAOS
+			glue := evilA(evilHost, 86400)
+			if sc.OwnerCase&1 == 1 {
+				glue.Header().Class = dns.ClassCHAOS
+			}
+			m.Answer, m.Ns, m.Extra = nil, []dns.RR{ns}, []dns.RR{glue}
+			m.Authoritative = false
+			m.Rcode = dns.RcodeSuccess
+			fired("referral-class")
 		case has("glue-loopback") && (strings.HasPrefix(qn, "child.") || strings.HasPrefix(qn, "www.child.")):
 			m.Answer, m.Ns = nil, []dns.RR{nsRR("child."+Z, "ns.child."+Z), nsRR("child."+Z, "ns2.child."+Z)}
 			m.Extra = []dns.RR{
@@ -408,7 +422,7 @@ func execC07(sc *C07Scenario, tr *kit.Trace, res *kit.Result) {
 			// zone that was asked, whatever the letter case of the owner), and as glue for a
 			// host outside Z. (A mixed-owner referral contains a set for child.Z, which Z may
 			// delegate to whom it likes; scenarios with it are not judged here.)
-			res.Fail("C07/refused-referral-followed", "%s: the attacker's server %s received %d queries although no acceptable referral names it (behaviours %v, owner-case mask %#x): a self, upward or sideways referral was followed",
+			res.Fail("C07/refused-referral-followed", "%s: the attacker's server %s received %d queries although no acceptable referral names it (behaviours %v, owner-case mask %#x): a self, upward, sideways or other-class referral was followed",
 				ctx, c07Evil, evilQueries-evilBefore, sc.Behaviours, sc.OwnerCase)
 			return
 		}
